@@ -4,6 +4,8 @@
 mod ex;
 mod c01;
 mod c06;
+mod c07;
+mod sys;
 mod c12;
 
 fn main() {
@@ -18,6 +20,7 @@ fn main() {
         "c01" => c01::run(rest),
         "c13" => c01::run_c13(rest),
         "c06" => c06::run(rest),
+        "c07" => c07::run(rest),
         "c12" => c12::run(rest),
         other => {
             eprintln!("unknown command {other}");
